@@ -48,6 +48,28 @@ impl<R> ReaderCursor<R> {
     }
 }
 
+/// Verification hook: read-only fingerprint of the cursor state, for coverage accounting.
+#[cfg(feature = "verif")]
+impl<R> ReaderCursor<R> {
+    /// One `(recorded offset, hash of the loaded block, in-block offset)` triple per index level
+    /// (root first), followed by one for the loaded data block (recorded offset `u64::MAX`).
+    pub fn verif_fingerprint(&self) -> Vec<(u64, u64, Option<usize>)> {
+        fn one(offset: u64, cursor: &BlockCursor<Block>) -> (u64, u64, Option<usize>) {
+            let (hash, in_block) = cursor.verif_state();
+            (offset, hash, in_block)
+        }
+
+        let mut out = Vec::new();
+        if let Some(inner) = self.index_block_cursor.inner.as_ref() {
+            out.extend(inner.iter().map(|(offset, cursor)| one(*offset, cursor)));
+        }
+        if let Some(cursor) = self.current_cursor.as_ref() {
+            out.push(one(u64::MAX, cursor));
+        }
+        out
+    }
+}
+
 impl<R: io::Read + io::Seek> ReaderCursor<R> {
     /// Creates a new [`ReaderCursor`] by consumming a [`Reader`].
     pub(crate) fn new(reader: Reader<R>) -> Result<ReaderCursor<R>, Error> {
